@@ -3,6 +3,9 @@
 STREAMS = {
     # name: pkg (under /verif/harness) | daemon (package main under /repo), optional overlay {repo-relative dst: overlay-relative src}
     'ring': dict(pkg='./cmd/ring'),
+    'processor': dict(pkg='./cmd/processor'),
+    'throttle': dict(pkg='./cmd/throttle'),
+    'loglimiter': dict(pkg='./cmd/loglimiter', overlay={'loglimiter/zz_verif_loglimiter.go': 'loglimiter/zz_verif_loglimiter.go'}),
 }
 
 PROPS = {
@@ -14,6 +17,15 @@ PROPS = {
              'wrapped (completed frames >= capacity); distinct by op text',
         trusted=['motion.FrameLoop driven through its exported API; frame identity = tag stored in two pixels'],
         assumptions=['capacity >= 1 (NewFrameLoop(0) divides by zero on the first Move; the daemon sizes it preview*fps+trigger-frames)'],
+    ),
+    'C20': dict(
+        lean=['Props.C20'],
+        streams=['loglimiter'],
+        rule='histories of (time, message) arrivals over 1-3 messages with steps in {0,1,iv-1,iv,iv+1,iv/2,2iv,iv/3} '
+             '(thorough: plus every history of length <= 6 over 3 messages x 4 time steps); non-trivial = at least one '
+             'suppression and two prints; distinct by op text',
+        trusted=['overlay accessor VerifSetClock (sets the unexported nowFunc); log output captured via log.SetOutput'],
+        assumptions=['non-decreasing clock', 'the zero time.Time of a fresh limiter is further than any interval before the first arrival'],
     ),
 }
 
@@ -31,4 +43,12 @@ MANIFEST_TEXT = {
         note=_COMMON_NOTE + 'frames are identified by a tag in two pixels; capacity 1 "recent" is stated as what the code does.',
         technique='Lean 4 refinement proof (ghost invariant, induction over op list) + differential correspondence',
         design_ref='DESIGN.md 5/C19'),
+    'C20': dict(
+        text='Theorems for every history of (message, time) arrivals and every interval: a message is suppressed iff it equals the last '
+             'printed message and arrives less than the interval after that print; suppressed repeats leave the state unchanged; distinct '
+             'messages and messages at/after the interval are always printed; the whole run equals a specification threading "last printed". '
+             'The model is compared arrival-for-arrival with the real LogLimiter under an injected clock.',
+        note=_COMMON_NOTE + 'log output is captured through the standard logger; the interval constant used by the processor is a regenerated fact.',
+        technique='Lean 4 proof (case analysis + induction over the history) + differential correspondence',
+        design_ref='DESIGN.md 5/C20'),
 }
